@@ -33,7 +33,8 @@
 EXTENDS Integers, Sequences, FiniteSets, TLC
 
 CONSTANTS FreezeBeforeMetaFlush,
-          CommitSeqBeforeWrite   \* the replicator commits the sequence before it writes the rows (seeded change C07b)
+          CommitSeqBeforeWrite,  \* the replicator commits the sequence before it writes the rows (seeded change C07b)
+          SeriesFirst            \* the index flush commits the series family before the index families (seeded change C07c)
 
 VARIABLES
   \* ---- durable ----
@@ -50,26 +51,37 @@ VARIABLES
   mem, imm, immSeq,     \* mutable memdb: set of [id, seq]; frozen memdb and the sequence captured at freeze
   gen,
   ifl,                  \* the in-flight round of the local replicator: [seq, st, ok]
+  dSer, dIdx,           \* durable: names whose series exists / whose index entries (metric, forward, inverted) exist
+  mSer, mIdx, iSer, iIdx,  \* the same in the mutable and in the immutable (being flushed) stores of the shard index
+  idxPhase,             \* "idle" | "prepared" | "half": progress of one index flush
   \* ---- ghost ----
   pendAck               \* a committed flush whose ack callback has not run yet
 
-vars == <<wal, gAck, qAck, dDict, dCounter, dFiles, dSeq, up, gCons, fSeq, mDict, mCounter, mem, imm, immSeq, gen, ifl, pendAck>>
+ixvars == <<dSer, dIdx, mSer, mIdx, iSer, iIdx, idxPhase>>
+vars == <<wal, gAck, qAck, dDict, dCounter, dFiles, dSeq, up, gCons, fSeq, mDict, mCounter, mem, imm, immSeq, gen, ifl, pendAck, ixvars>>
 
 Empty == [n \in {} |-> 0]
 Merge(f, g) == [n \in (DOMAIN f) \cup (DOMAIN g) |-> IF n \in DOMAIN f THEN f[n] ELSE g[n]]
 AllDict == Merge(dDict, mDict)
 AckTo(s, c, a) == IF s >= a /\ s <= c THEN s ELSE a
 NoIfl == [seq |-> -1, st |-> "none", ok |-> FALSE]
+\* GenSeriesID: a name whose series is unknown (in no store of the series family) gets a series AND its index
+\* entries (metric inverted, forward, inverted index); a known series is not indexed again
+AllSer == dSer \cup iSer \cup mSer
+AllIdx == dIdx \cup iIdx \cup mIdx
+IndexWrite(n) == IF n \in AllSer THEN UNCHANGED <<mSer, mIdx>>
+                 ELSE mSer' = mSer \cup {n} /\ mIdx' = mIdx \cup {n}
 
 Init ==
   /\ wal = << >> /\ gAck = -1 /\ qAck = -1 /\ dDict = Empty /\ dCounter = 0 /\ dFiles = {} /\ dSeq = -1
   /\ up = TRUE /\ gCons = -1 /\ fSeq = -1
   /\ mDict = Empty /\ mCounter = 0 /\ mem = {} /\ imm = {} /\ immSeq = -1 /\ gen = 0 /\ ifl = NoIfl /\ pendAck = FALSE
+  /\ dSer = {} /\ dIdx = {} /\ mSer = {} /\ mIdx = {} /\ iSer = {} /\ iIdx = {} /\ idxPhase = "idle"
 
 AppendEntry(n) ==
   /\ up
   /\ wal' = Append(wal, n)
-  /\ UNCHANGED <<gAck, qAck, dDict, dCounter, dFiles, dSeq, up, gCons, fSeq, mDict, mCounter, mem, imm, immSeq, gen, ifl, pendAck>>
+  /\ UNCHANGED <<gAck, qAck, dDict, dCounter, dFiles, dSeq, up, gCons, fSeq, mDict, mCounter, mem, imm, immSeq, gen, ifl, pendAck, ixvars>>
 
 \* one round of the local replicator
 ReplicaStep ==
@@ -84,8 +96,9 @@ ReplicaStep ==
                          /\ mCounter' = mCounter + 1
                          /\ mem' = mem \cup {[id |-> mCounter, seq |-> s]}
                /\ fSeq' = s
-          ELSE UNCHANGED <<mem, mDict, mCounter, fSeq>>       \* ValidateSequence rejects: already persisted
-  /\ UNCHANGED <<wal, gAck, qAck, dDict, dCounter, dFiles, dSeq, up, imm, immSeq, gen, ifl, pendAck>>
+               /\ IndexWrite(n)
+          ELSE UNCHANGED <<mem, mDict, mCounter, fSeq, mSer, mIdx>>       \* ValidateSequence rejects: already persisted
+  /\ UNCHANGED <<wal, gAck, qAck, dDict, dCounter, dFiles, dSeq, up, imm, immSeq, gen, ifl, pendAck, dSer, dIdx, iSer, iIdx, idxPhase>>
 
 \* The same round in the three steps of localReplicator.Replica, so that the flush job can fall between
 \* them (the replicator and the flush checker are different goroutines; no lock spans the round):
@@ -97,7 +110,7 @@ RBegin ==
      /\ gCons' = s
      /\ ifl' = [seq |-> s, st |-> "validated", ok |-> s > fSeq]
      /\ fSeq' = IF CommitSeqBeforeWrite /\ s > fSeq THEN s ELSE fSeq
-  /\ UNCHANGED <<wal, gAck, qAck, dDict, dCounter, dFiles, dSeq, up, mDict, mCounter, mem, imm, immSeq, gen, pendAck>>
+  /\ UNCHANGED <<wal, gAck, qAck, dDict, dCounter, dFiles, dSeq, up, mDict, mCounter, mem, imm, immSeq, gen, pendAck, ixvars>>
 
 RWrite ==
   /\ up /\ ifl.st = "validated"
@@ -111,13 +124,14 @@ RWrite ==
                    /\ mCounter' = mCounter + 1
                    /\ mem' = mem \cup {[id |-> mCounter, seq |-> s]}
        ELSE UNCHANGED <<mem, mDict, mCounter>>
-  /\ UNCHANGED <<wal, gAck, qAck, dDict, dCounter, dFiles, dSeq, up, gCons, fSeq, imm, immSeq, gen, pendAck>>
+  /\ IF ifl.ok THEN IndexWrite(wal[ifl.seq + 1]) ELSE UNCHANGED <<mSer, mIdx>>
+  /\ UNCHANGED <<wal, gAck, qAck, dDict, dCounter, dFiles, dSeq, up, gCons, fSeq, imm, immSeq, gen, pendAck, dSer, dIdx, iSer, iIdx, idxPhase>>
 
 RCommit ==
   /\ up /\ ifl.st = "written"
   /\ ifl' = NoIfl
   /\ fSeq' = IF ifl.ok /\ ~CommitSeqBeforeWrite THEN ifl.seq ELSE fSeq
-  /\ UNCHANGED <<wal, gAck, qAck, dDict, dCounter, dFiles, dSeq, up, gCons, mDict, mCounter, mem, imm, immSeq, gen, pendAck>>
+  /\ UNCHANGED <<wal, gAck, qAck, dDict, dCounter, dFiles, dSeq, up, gCons, mDict, mCounter, mem, imm, immSeq, gen, pendAck, ixvars>>
 
 Freeze == imm' = mem /\ mem' = {} /\ immSeq' = fSeq
 
@@ -127,14 +141,14 @@ MetaFlush ==
   /\ dCounter' = mCounter
   /\ dDict' = Merge(dDict, mDict) /\ mDict' = Empty
   /\ IF FreezeBeforeMetaFlush /\ imm = {} THEN Freeze ELSE UNCHANGED <<imm, mem, immSeq>>
-  /\ UNCHANGED <<wal, gAck, qAck, dFiles, dSeq, up, gCons, fSeq, mCounter, gen, ifl, pendAck>>
+  /\ UNCHANGED <<wal, gAck, qAck, dFiles, dSeq, up, gCons, fSeq, mCounter, gen, ifl, pendAck, ixvars>>
 
 \* DataFamily.Flush, first half: the mutable memory database becomes immutable and the replica
 \* sequence is captured (writes arriving later go to a new memory database)
 FamilyFreeze ==
   /\ up /\ ~FreezeBeforeMetaFlush /\ imm = {} /\ mem # {} /\ ~pendAck
   /\ Freeze
-  /\ UNCHANGED <<wal, gAck, qAck, dDict, dCounter, dFiles, dSeq, up, gCons, fSeq, mDict, mCounter, gen, ifl, pendAck>>
+  /\ UNCHANGED <<wal, gAck, qAck, dDict, dCounter, dFiles, dSeq, up, gCons, fSeq, mDict, mCounter, gen, ifl, pendAck, ixvars>>
 
 \* ... second half: table written, file + captured sequence committed in ONE manifest record
 FamilyCommit ==
@@ -143,7 +157,7 @@ FamilyCommit ==
   /\ dSeq' = IF immSeq > dSeq THEN immSeq ELSE dSeq
   /\ imm' = {}
   /\ gen' = gen + 1 /\ pendAck' = TRUE
-  /\ UNCHANGED <<wal, gAck, qAck, dDict, dCounter, up, gCons, fSeq, mDict, mCounter, mem, immSeq, ifl>>
+  /\ UNCHANGED <<wal, gAck, qAck, dDict, dCounter, up, gCons, fSeq, mDict, mCounter, mem, immSeq, ifl, ixvars>>
 
 \* both halves in one step (what a sequential driver observes of one DataFamily.Flush call)
 FamilyFreezeAndCommit ==
@@ -152,26 +166,49 @@ FamilyFreezeAndCommit ==
   /\ dSeq' = IF fSeq > dSeq THEN fSeq ELSE dSeq
   /\ mem' = {} /\ immSeq' = fSeq
   /\ gen' = gen + 1 /\ pendAck' = TRUE
-  /\ UNCHANGED <<wal, gAck, qAck, dDict, dCounter, up, gCons, fSeq, mDict, mCounter, imm, ifl>>
+  /\ UNCHANGED <<wal, gAck, qAck, dDict, dCounter, up, gCons, fSeq, mDict, mCounter, imm, ifl, ixvars>>
 
 \* ... the ack callbacks after the commit
 FamilyAck ==
   /\ up /\ pendAck
   /\ gAck' = AckTo(immSeq, gCons, gAck)
   /\ pendAck' = FALSE
-  /\ UNCHANGED <<wal, qAck, dDict, dCounter, dFiles, dSeq, up, gCons, fSeq, mDict, mCounter, mem, imm, immSeq, gen, ifl>>
+  /\ UNCHANGED <<wal, qAck, dDict, dCounter, dFiles, dSeq, up, gCons, fSeq, mDict, mCounter, mem, imm, immSeq, gen, ifl, ixvars>>
+
+\* Shard.FlushIndex: prepare-flush of the four index families, then their commits one family after the other: the
+\* three index families first, the series family LAST (so that a series is durable only with its index entries)
+base == <<wal, gAck, qAck, dDict, dCounter, dFiles, dSeq, up, gCons, fSeq, mDict, mCounter, mem, imm, immSeq, gen, ifl, pendAck>>
+IdxPrepare ==
+  /\ up /\ idxPhase = "idle"
+  /\ iSer' = mSer /\ iIdx' = mIdx /\ mSer' = {} /\ mIdx' = {} /\ idxPhase' = "prepared"
+  /\ UNCHANGED <<base, dSer, dIdx>>
+CommitIdxPart == dIdx' = dIdx \cup iIdx /\ iIdx' = {} /\ UNCHANGED <<dSer, iSer>>
+CommitSerPart == dSer' = dSer \cup iSer /\ iSer' = {} /\ UNCHANGED <<dIdx, iIdx>>
+IdxCommitA ==
+  /\ up /\ idxPhase = "prepared" /\ idxPhase' = "half"
+  /\ IF SeriesFirst THEN CommitSerPart ELSE CommitIdxPart
+  /\ UNCHANGED <<base, mSer, mIdx>>
+IdxCommitB ==
+  /\ up /\ idxPhase = "half" /\ idxPhase' = "idle"
+  /\ IF SeriesFirst THEN CommitIdxPart ELSE CommitSerPart
+  /\ UNCHANGED <<base, mSer, mIdx>>
+IdxCommitBoth ==      \* both parts in one step (a part with nothing to flush commits nothing and is not observed)
+  /\ up /\ idxPhase = "prepared" /\ idxPhase' = "idle"
+  /\ dIdx' = dIdx \cup iIdx /\ iIdx' = {} /\ dSer' = dSer \cup iSer /\ iSer' = {}
+  /\ UNCHANGED <<base, mSer, mIdx>>
 
 \* Partition.IsExpire: FanOutQueue.Sync (queue-wide position := smallest group position) + GC
 SyncGC ==
   /\ up
   /\ LET m == IF gAck < Len(wal) - 1 THEN gAck ELSE Len(wal) - 1 IN
      qAck' = IF m >= 0 /\ m > qAck THEN m ELSE qAck
-  /\ UNCHANGED <<wal, gAck, dDict, dCounter, dFiles, dSeq, up, gCons, fSeq, mDict, mCounter, mem, imm, immSeq, gen, ifl, pendAck>>
+  /\ UNCHANGED <<wal, gAck, dDict, dCounter, dFiles, dSeq, up, gCons, fSeq, mDict, mCounter, mem, imm, immSeq, gen, ifl, pendAck, ixvars>>
 
 Crash ==
   /\ up /\ up' = FALSE
   /\ mDict' = Empty /\ mem' = {} /\ imm' = {} /\ pendAck' = FALSE /\ ifl' = NoIfl
-  /\ UNCHANGED <<wal, gAck, qAck, dDict, dCounter, dFiles, dSeq, gCons, fSeq, mCounter, immSeq, gen>>
+  /\ mSer' = {} /\ mIdx' = {} /\ iSer' = {} /\ iIdx' = {} /\ idxPhase' = "idle"
+  /\ UNCHANGED <<wal, gAck, qAck, dDict, dCounter, dFiles, dSeq, gCons, fSeq, mCounter, immSeq, gen, dSer, dIdx>>
 
 \* Beyond a process kill: the consumer group's meta page (positions are stored without a sync on
 \* consume) was not written back, the node restarts with older group positions.  The data files and
@@ -179,7 +216,7 @@ Crash ==
 LogRollback(c, a) ==
   /\ ~up /\ a <= c /\ c <= gCons /\ a <= gAck /\ a >= -1
   /\ gCons' = c /\ gAck' = a
-  /\ UNCHANGED <<wal, qAck, dDict, dCounter, dFiles, dSeq, up, fSeq, mDict, mCounter, mem, imm, immSeq, gen, ifl, pendAck>>
+  /\ UNCHANGED <<wal, qAck, dDict, dCounter, dFiles, dSeq, up, fSeq, mDict, mCounter, mem, imm, immSeq, gen, ifl, pendAck, ixvars>>
 
 \* reopen: NewLocalReplicator registers the ack callback (invoked at once with the recorded sequence)
 \* and rewinds the replica index to ack + 1
@@ -192,7 +229,7 @@ Recover ==
          c0 == IF gCons < a0 THEN a0 ELSE gCons
          a == AckTo(dSeq, c0, a0)
      IN gAck' = a /\ gCons' = a
-  /\ UNCHANGED <<wal, qAck, dDict, dCounter, dFiles, dSeq, mDict, mem, imm, gen, ifl, pendAck>>
+  /\ UNCHANGED <<wal, qAck, dDict, dCounter, dFiles, dSeq, mDict, mem, imm, gen, ifl, pendAck, ixvars>>
 
 \* ------------------------------------------------------------------ properties (C07)
 \* the log's acknowledged position never runs ahead of the sequence stored durably with the data
@@ -205,5 +242,8 @@ NoReapply == /\ \A b \in mem \cup imm : b.seq > dSeq \/ ~up
 \* flushed data resolves through the DURABLE dictionary
 FlushedResolves == \A b \in dFiles : wal[b.seq + 1] \in DOMAIN dDict /\ dDict[wal[b.seq + 1]] = b.id
 \* C09 (crash part): no name holds an id that data files use for another name
+\* a series is never known without its index entries (else a replayed write does not index it again and the
+\* data is unreachable by metric / tag)
+SeriesIndexed == AllSer \subseteq AllIdx
 NoIdReuse == \A b \in dFiles : \A n \in DOMAIN AllDict : AllDict[n] = b.id => n = wal[b.seq + 1]
 =============================================================================
